@@ -132,9 +132,12 @@ def mem_dump(m: Memory) -> str:
     return ",".join(f"{a}:{int(m.memory_file[a])}" for a in sorted(m.memory_file))
 
 
-def pol_str(p) -> str:
+def pol_str(p, via_getter: bool = False) -> str:
+    """State of a replacement policy object. Snapshots read the raw fields (so that taking a snapshot never
+    calls an inspection function of the code under test); `repl.repr` (C10) goes through `get_repr()`."""
     if isinstance(p, LRU):
-        return "L[" + ",".join(str(x) for x in p.get_repr()) + "]"
+        ages = p.get_repr() if via_getter else [list(p.lru).index(i) if i in p.lru else -1 for i in range(len(p.lru))]
+        return "L[" + ",".join(str(x) for x in ages) + "]"
     if isinstance(p, PLRU):
         return "P[" + ",".join(b01(x) for x in p.tree_array) + "]"
     return "?"
@@ -333,7 +336,10 @@ class Impl:
             return "err"
 
     def c_repl_repr(self, a):
-        return pol_str(self.repl)
+        try:
+            return pol_str(self.repl, via_getter=True)
+        except Exception:
+            return "err"
 
     # -- flat memory ----------------------------------------------------------------------------
     def c_mem_new(self, a):
